@@ -153,3 +153,151 @@ package caldav
 //@   loop 1 invariant J2: let k : #i in forall j :: 0 <= j && j < k && old(objMatches(query, cos[j])) ==> out[old(ccnt(query, cos, j))] == old(cos[j])
 //@   loop 1 invariant J5a: let k : #i in forall j :: 0 <= j && j <= k ==> 0 <= old(ccnt(query, cos, j)) && old(ccnt(query, cos, j)) <= old(ccnt(query, cos, k))
 //@   loop 1 invariant J5b: let k : #i in forall j :: 0 <= j && j < k && old(objMatches(query, cos[j])) ==> old(ccnt(query, cos, j)) < old(ccnt(query, cos, k))
+
+//@ -- ---------------------------------------------------------------------------------------
+//@ -- C08: calendar-query / calendar-multiget across the wire. Relations between public values and wire
+//@ -- structs, field by field from RFC 4791 section 9.6 - 9.9 (w: wire struct, p / c: public value).
+//@ spec tmRelC(w textMatch, t TextMatch) bool = w.Text == t.Text && bool(w.NegateCondition) == t.NegateCondition
+//@ spec tmPtrRel(w *textMatch, t *TextMatch) bool = (w != nil) == (t != nil) && (w != nil ==> tmRelC(*w, *t))
+//@ -- no time-range element denotes the unbounded range (both instants zero); holds for encode and decode alike and
+//@ -- makes the public range a function of the wire element
+//@ spec rangeRel(w *timeRange, s time.Time, e time.Time) bool = (w == nil ==> isZeroTime(s) && isZeroTime(e))
+//@   | && (w != nil ==> ns(w.Start) == ns(s) && ns(w.End) == ns(e))
+//@ spec paramRelC(w paramFilter, p ParamFilter) bool = w.Name == p.Name && (w.IsNotDefined != nil) == p.IsNotDefined && tmPtrRel(w.TextMatch, p.TextMatch)
+//@ spec opaque propRelC(w propFilter, p PropFilter) bool = w.Name == p.Name && (w.IsNotDefined != nil) == p.IsNotDefined
+//@   | && rangeRel(w.TimeRange, p.Start, p.End) && tmPtrRel(w.TextMatch, p.TextMatch)
+//@   | && len(w.ParamFilter) == len(p.ParamFilter) && (forall j :: 0 <= j && j < len(p.ParamFilter) ==> paramRelC(w.ParamFilter[j], p.ParamFilter[j]))
+//@ spec compRelC(w compFilter, c CompFilter) bool = w.Name == c.Name && (w.IsNotDefined != nil) == c.IsNotDefined
+//@   | && rangeRel(w.TimeRange, c.Start, c.End)
+//@   | && len(w.PropFilters) == len(c.Props) && (forall j :: 0 <= j && j < len(c.Props) ==> propRelC(w.PropFilters[j], c.Props[j]))
+//@   | && len(w.CompFilters) == len(c.Comps) && (forall j :: 0 <= j && j < len(c.Comps) ==> compRelC(w.CompFilters[j], c.Comps[j]))
+//@ -- what the server refuses: is-not-defined combined with anything else (RFC 4791 DTD)
+//@ spec paramDecodable(w paramFilter) bool = !(w.IsNotDefined != nil && w.TextMatch != nil)
+//@ spec opaque propDecodable(w propFilter) bool = !(w.IsNotDefined != nil && (w.TextMatch != nil || w.TimeRange != nil || len(w.ParamFilter) > 0))
+//@   | && (forall j :: 0 <= j && j < len(w.ParamFilter) ==> paramDecodable(w.ParamFilter[j]))
+//@ spec compDecodable(w compFilter) bool = !(w.IsNotDefined != nil && (w.TimeRange != nil || len(w.PropFilters) > 0 || len(w.CompFilters) > 0))
+//@   | && (forall j :: 0 <= j && j < len(w.PropFilters) ==> propDecodable(w.PropFilters[j]))
+//@   | && (forall j :: 0 <= j && j < len(w.CompFilters) ==> compDecodable(w.CompFilters[j]))
+
+//@ func caldav.encodeTextMatch(tm) (w)
+//@   ensures T1: tmPtrRel(w, tm) && (w != nil ==> fresh(w) && w.Collation == "")
+//@ func caldav.encodeParamFilter(pf) (w)
+//@   ensures P1: paramRelC(w, pf)
+//@ func caldav.decodeParamFilter(el) (p, err)
+//@   requires R1: el != nil
+//@   ensures P1: err == nil <==> paramDecodable(*el)
+//@   ensures P2: err == nil ==> p != nil && fresh(p) && paramRelC(*el, *p)
+//@   ensures P3: err != nil ==> p == nil && httpCode(err) == -1
+//@ spec paramEqC(a ParamFilter, b ParamFilter) bool = a.Name == b.Name && a.IsNotDefined == b.IsNotDefined
+//@   | && (a.TextMatch != nil) == (b.TextMatch != nil) && (a.TextMatch != nil ==> *a.TextMatch == *b.TextMatch)
+//@ func caldav.verifParamFilterRoundTrip(pf) (r, err)
+//@   ensures RT1: err == nil <==> !(pf.IsNotDefined && pf.TextMatch != nil)
+//@   ensures RT2: err == nil ==> r != nil && paramEqC(*r, pf)
+
+//@ func caldav.encodePropFilter(filter) (w)
+//@   reveal propRelC
+//@   requires R1: filter != nil
+//@   ensures F1: w != nil && fresh(w) && propRelC(*w, *filter)
+//@   ensures F1b: (w.TimeRange != nil) == hasRange(filter.Start, filter.End)
+//@   loop 1 invariant I1d: (encoded.TimeRange != nil) == hasRange(filter.Start, filter.End)
+//@   loop 1 invariant I1a: fresh(&encoded) && encoded.Name == filter.Name && (encoded.IsNotDefined != nil) == filter.IsNotDefined
+//@   loop 1 invariant I1b: rangeRel(encoded.TimeRange, filter.Start, filter.End)
+//@   loop 1 invariant I1c: tmPtrRel(encoded.TextMatch, filter.TextMatch)
+//@   loop 1 invariant I2: len(encoded.ParamFilter) == #i && (cap(encoded.ParamFilter) == 0 || fresh(encoded.ParamFilter))
+//@   |   && (forall j :: 0 <= j && j < #i ==> paramRelC(encoded.ParamFilter[j], filter.ParamFilter[j]))
+//@ func caldav.decodePropFilter(el) (p, err)
+//@   reveal propRelC, propDecodable
+//@   requires R1: el != nil
+//@   ensures F1: err == nil <==> propDecodable(*el)
+//@   ensures F2: err == nil ==> p != nil && fresh(p) && propRelC(*el, *p)
+//@   ensures F3: err != nil ==> p == nil && httpCode(err) == -1
+//@   loop 1 invariant I1: pf != nil && fresh(pf) && pf.Name == el.Name && pf.IsNotDefined == (el.IsNotDefined != nil)
+//@   |   && rangeRel(el.TimeRange, pf.Start, pf.End) && tmPtrRel(el.TextMatch, pf.TextMatch)
+//@   |   && !(el.IsNotDefined != nil && (el.TextMatch != nil || el.TimeRange != nil || len(el.ParamFilter) > 0))
+//@   loop 1 invariant I2: len(pf.ParamFilter) == #i && (cap(pf.ParamFilter) == 0 || fresh(pf.ParamFilter))
+//@   |   && (forall j :: 0 <= j && j < #i ==> paramDecodable(el.ParamFilter[j]) && paramRelC(el.ParamFilter[j], pf.ParamFilter[j]))
+//@ spec opaque propEqC(a PropFilter, b PropFilter) bool = a.Name == b.Name && a.IsNotDefined == b.IsNotDefined && ns(a.Start) == ns(b.Start) && ns(a.End) == ns(b.End)
+//@   | && (a.TextMatch != nil) == (b.TextMatch != nil) && (a.TextMatch != nil ==> *a.TextMatch == *b.TextMatch)
+//@   | && len(a.ParamFilter) == len(b.ParamFilter) && (forall j :: 0 <= j && j < len(b.ParamFilter) ==> paramEqC(a.ParamFilter[j], b.ParamFilter[j]))
+//@ func caldav.verifPropFilterRoundTrip(pf) (r, err)
+//@   reveal propRelC, propEqC, propDecodable
+//@   requires R1: pf != nil
+//@   ensures RT1: err == nil <==> !(pf.IsNotDefined && (pf.TextMatch != nil || hasRange(pf.Start, pf.End) || len(pf.ParamFilter) > 0))
+//@   |   && (forall j :: 0 <= j && j < len(pf.ParamFilter) ==> !(pf.ParamFilter[j].IsNotDefined && pf.ParamFilter[j].TextMatch != nil))
+//@   ensures RT2: err == nil ==> r != nil && propEqC(*r, *pf)
+//@ lemma C08_prop: forall w propFilter, a PropFilter, b PropFilter :: propRelC(w, a) && propRelC(w, b) ==> propEqC(a, b)
+
+//@ -- Nested comp-filters are related level by level: every activation of the (recursive) encoder / decoder relates
+//@ -- its own attributes, time range and property filters completely, and the attributes, time range and list
+//@ -- lengths of each child, in order (compShallow). The deep relation compRelC is what the run-time contract
+//@ -- evaluation checks (bounded); see the evidence file for why it is not an SMT obligation.
+//@ spec compShallow(w compFilter, c CompFilter) bool = w.Name == c.Name && (w.IsNotDefined != nil) == c.IsNotDefined
+//@   | && rangeRel(w.TimeRange, c.Start, c.End) && len(w.PropFilters) == len(c.Props) && len(w.CompFilters) == len(c.Comps)
+//@ spec compLevel(w compFilter, c CompFilter) bool = compShallow(w, c)
+//@   | && (forall j :: 0 <= j && j < len(c.Props) ==> propRelC(w.PropFilters[j], c.Props[j]))
+//@   | && (forall j :: 0 <= j && j < len(c.Comps) ==> compShallow(w.CompFilters[j], c.Comps[j]))
+//@ spec compRefusedHere(w compFilter) bool = w.IsNotDefined != nil && (w.TimeRange != nil || len(w.PropFilters) > 0 || len(w.CompFilters) > 0)
+//@ func caldav.encodeCompFilter(filter) (w)
+//@   reveal propRelC
+//@   requires R1: filter != nil
+//@   ensures C1: w != nil && fresh(w) && compLevel(*w, *filter)
+//@   loop 1 invariant I1: fresh(&encoded) && encoded.Name == filter.Name && (encoded.IsNotDefined != nil) == filter.IsNotDefined
+//@   |   && rangeRel(encoded.TimeRange, filter.Start, filter.End) && len(encoded.PropFilters) == 0
+//@   loop 1 invariant I2: len(encoded.CompFilters) == #i && (cap(encoded.CompFilters) == 0 || fresh(encoded.CompFilters))
+//@   |   && (forall j :: 0 <= j && j < #i ==> compShallow(encoded.CompFilters[j], filter.Comps[j]))
+//@   loop 2 invariant I3: fresh(&encoded) && encoded.Name == filter.Name && (encoded.IsNotDefined != nil) == filter.IsNotDefined
+//@   |   && rangeRel(encoded.TimeRange, filter.Start, filter.End)
+//@   loop 2 invariant I4: len(encoded.CompFilters) == len(filter.Comps) && (forall j :: 0 <= j && j < len(filter.Comps) ==> compShallow(encoded.CompFilters[j], filter.Comps[j]))
+//@   loop 2 invariant I5: len(encoded.PropFilters) == #i && (cap(encoded.PropFilters) == 0 || fresh(encoded.PropFilters))
+//@   |   && (forall j :: 0 <= j && j < #i ==> propRelC(encoded.PropFilters[j], filter.Props[j]))
+//@ func caldav.decodeCompFilter(el) (c, err)
+//@   reveal propRelC, propDecodable
+//@   requires R1: el != nil
+//@   ensures C1: compRefusedHere(*el) ==> err != nil
+//@   ensures C1b: (forall j :: 0 <= j && j < len(el.PropFilters) ==> propDecodable(el.PropFilters[j])) && !compRefusedHere(*el) && len(el.CompFilters) == 0 ==> err == nil
+//@   ensures C2: err == nil ==> c != nil && fresh(c) && compLevel(*el, *c)
+//@   ensures C3: err != nil ==> c == nil && httpCode(err) == -1
+//@   loop 1 invariant I1: cf != nil && fresh(cf) && cf.Name == el.Name && cf.IsNotDefined == (el.IsNotDefined != nil) && rangeRel(el.TimeRange, cf.Start, cf.End)
+//@   |   && !compRefusedHere(*el) && len(cf.Comps) == 0
+//@   loop 1 invariant I2: len(cf.Props) == #i && (cap(cf.Props) == 0 || fresh(cf.Props))
+//@   |   && (forall j :: 0 <= j && j < #i ==> propDecodable(el.PropFilters[j]) && propRelC(el.PropFilters[j], cf.Props[j]))
+//@   loop 2 invariant I3: cf != nil && fresh(cf) && cf.Name == el.Name && cf.IsNotDefined == (el.IsNotDefined != nil) && rangeRel(el.TimeRange, cf.Start, cf.End)
+//@   |   && !compRefusedHere(*el)
+//@   loop 2 invariant I4: len(cf.Props) == len(el.PropFilters) && (forall j :: 0 <= j && j < len(el.PropFilters) ==> propDecodable(el.PropFilters[j]) && propRelC(el.PropFilters[j], cf.Props[j]))
+//@   loop 2 invariant I5: len(cf.Comps) == #i && (cap(cf.Comps) == 0 || fresh(cf.Comps))
+//@   |   && (forall j :: 0 <= j && j < #i ==> compShallow(el.CompFilters[j], cf.Comps[j]))
+
+//@ -- C08: calendar-data requests (component / property selection, expansion), level by level like the filters
+//@ spec crShallow(w comp, c CalendarCompRequest) bool = w.Name == c.Name && (w.Allprop != nil) == c.AllProps && (w.Allcomp != nil) == c.AllComps
+//@   | && len(w.Prop) == len(c.Props) && len(w.Comp) == len(c.Comps)
+//@ spec crLevel(w comp, c CalendarCompRequest) bool = crShallow(w, c) && (forall j :: 0 <= j && j < len(c.Props) ==> w.Prop[j].Name == c.Props[j])
+//@   | && (forall j :: 0 <= j && j < len(c.Comps) ==> crShallow(w.Comp[j], c.Comps[j]))
+//@ spec expandRel(w *expand, e *CalendarExpandRequest) bool = (w != nil) == (e != nil) && (w != nil ==> ns(w.Start) == ns(e.Start) && ns(w.End) == ns(e.End))
+//@ spec crRefusedHere(w comp) bool = (w.Allprop != nil && len(w.Prop) > 0) || (w.Allcomp != nil && len(w.Comp) > 0)
+//@ func caldav.encodeCalendarCompReq(c) (w, err)
+//@   requires R1: c != nil
+//@   ensures E1: err == nil && w != nil && fresh(w) && crLevel(*w, *c)
+//@   loop 1 invariant I1: fresh(&encoded) && encoded.Name == c.Name && (encoded.Allprop != nil) == c.AllProps && encoded.Allcomp == nil && len(encoded.Comp) == 0
+//@   |   && len(encoded.Prop) == #i && (cap(encoded.Prop) == 0 || fresh(encoded.Prop)) && (forall j :: 0 <= j && j < #i ==> encoded.Prop[j].Name == c.Props[j])
+//@   loop 2 invariant I2: fresh(&encoded) && encoded.Name == c.Name && (encoded.Allprop != nil) == c.AllProps && (encoded.Allcomp != nil) == c.AllComps
+//@   |   && len(encoded.Prop) == len(c.Props) && (forall j :: 0 <= j && j < len(c.Props) ==> encoded.Prop[j].Name == c.Props[j])
+//@   loop 2 invariant I3: len(encoded.Comp) == #i && (cap(encoded.Comp) == 0 || fresh(encoded.Comp)) && (forall j :: 0 <= j && j < #i ==> crShallow(encoded.Comp[j], c.Comps[j]))
+//@ func caldav.decodeComp(comp) (req, err)
+//@   ensures D1: comp == nil || crRefusedHere(*comp) ==> httpCode(err) == 400
+//@   ensures D2: comp != nil && !crRefusedHere(*comp) && len(comp.Comp) == 0 ==> err == nil
+//@   ensures D3: err == nil ==> comp != nil && req != nil && fresh(req) && crLevel(*comp, *req) && req.Expand == nil
+//@   ensures D4: err != nil ==> req == nil && httpCode(err) == 400
+//@   loop 1 invariant I1: comp != nil && !crRefusedHere(*comp) && req != nil && fresh(req) && req.Name == comp.Name && req.AllProps == (comp.Allprop != nil) && req.AllComps == (comp.Allcomp != nil) && len(req.Comps) == 0 && req.Expand == nil
+//@   |   && len(req.Props) == #i && (cap(req.Props) == 0 || fresh(req.Props)) && (forall j :: 0 <= j && j < #i ==> comp.Prop[j].Name == req.Props[j])
+//@   loop 2 invariant I2: comp != nil && !crRefusedHere(*comp) && req != nil && fresh(req) && req.Name == comp.Name && req.AllProps == (comp.Allprop != nil) && req.AllComps == (comp.Allcomp != nil) && req.Expand == nil
+//@   |   && len(req.Props) == len(comp.Prop) && (forall j :: 0 <= j && j < len(comp.Prop) ==> comp.Prop[j].Name == req.Props[j])
+//@   loop 2 invariant I3: len(req.Comps) == #i && (cap(req.Comps) == 0 || fresh(req.Comps)) && (forall j :: 0 <= j && j < #i ==> crShallow(comp.Comp[j], req.Comps[j]))
+//@ func caldav.encodeExpandRequest(e) (w)
+//@   ensures X1: expandRel(w, e) && (w != nil ==> fresh(w))
+//@ spec dataRelC(c CalendarCompRequest, w calendarDataReq) bool = (w.Comp == nil ? (c.AllProps && c.AllComps && c.Name == "" && len(c.Props) == 0 && len(c.Comps) == 0) : crLevel(*w.Comp, c))
+//@   | && expandRel(w.Expand, c.Expand)
+//@ func caldav.decodeCalendarDataReq(calendarData) (req, err)
+//@   requires R1: calendarData != nil
+//@   ensures Q1: err == nil ==> req != nil && fresh(req) && dataRelC(*req, *calendarData)
+//@   ensures Q2: err != nil ==> req == nil && httpCode(err) == 400
+//@   ensures Q3: calendarData.Comp == nil ==> err == nil
